@@ -308,3 +308,24 @@ Definition all_paths (Q : bytes -> bool) (v : list node) : bool := forallb (all_
 
 (* the map function that a nil FilterOpt.Map stands for *)
 Definition id_map (p : bytes) (s : stat) : mres * stat := (MKeep, s).
+
+(* ---------- the statement of the property, literally, for a nil map function ----------
+   test every entry of the full tree (walk_root) with the verdict V; keep those selected; add
+   the ancestors of kept entries (entries whose path followed by '/' is a prefix of a kept
+   entry's path); in walk order, each once *)
+Definition selected_or_above (V : bytes -> bool) (all : list entry) (e : entry) : bool :=
+  let p := st_path (fst e) in
+  V p || existsb (fun e' => has_prefix (p ++ [sep]) (st_path (fst e')) && V (st_path (fst e'))) all.
+Definition flat_reference (V : bytes -> bool) (view : list node) : list stat :=
+  map fst (filter (selected_or_above V (walk_root view)) (walk_root view)).
+
+(* views as a file system presents them: sibling names distinct, only directories have children *)
+Fixpoint distinct (l : list bytes) : bool :=
+  match l with [] => true | a :: r => negb (existsb (bytes_eqb a) r) && distinct r end.
+Fixpoint wf_tree_node (n : node) : bool :=
+  match n with
+  | Node name st _ kids =>
+    negb (is_nil name) && no_sep name && (st_is_dir st || is_nil kids)
+    && distinct (map node_name kids) && forallb wf_tree_node kids
+  end.
+Definition wf_tree (v : list node) : bool := distinct (map node_name v) && forallb wf_tree_node v.
